@@ -68,7 +68,123 @@ func (ro *Roles) isDequeue(f *ssa.Function) bool {
 	return false
 }
 
-// canceledSites enumerates every store of Canceled = true and checks the site kind.
+// helpersOf lists the inlinable static callees of fn (transitively, depth ≤ 2): the helpers
+// whose bodies EnumPaths splices into fn's paths.
+func (ro *Roles) helpersOf(fn *ssa.Function) []*ssa.Function {
+	var out []*ssa.Function
+	seen := map[*ssa.Function]bool{fn: true}
+	var rec func(f *ssa.Function, d int)
+	rec = func(f *ssa.Function, d int) {
+		if d >= 2 {
+			return
+		}
+		allInstrs(f, func(in ssa.Instruction) {
+			if c, ok := in.(*ssa.Call); ok {
+				if g := c.Call.StaticCallee(); g != nil && !seen[g] && ro.w.inlinable(g) {
+					seen[g] = true
+					out = append(out, g)
+					rec(g, d+1)
+				}
+			}
+		})
+	}
+	rec(fn, 0)
+	return out
+}
+
+// liftTo returns the instruction of fn that stands for in: in itself when it belongs to fn,
+// else the call in fn of the helper (helpersOf) whose body contains in; nil if there is none.
+func (ro *Roles) liftTo(fn *ssa.Function, in ssa.Instruction) ssa.Instruction {
+	if in == nil || in.Parent() == fn {
+		return in
+	}
+	var contains func(f *ssa.Function, d int) bool
+	contains = func(f *ssa.Function, d int) bool {
+		if f == in.Parent() {
+			return true
+		}
+		if d >= 2 {
+			return false
+		}
+		found := false
+		allInstrs(f, func(x ssa.Instruction) {
+			if c, ok := x.(*ssa.Call); ok {
+				if g := c.Call.StaticCallee(); g != nil && g != f && ro.w.inlinable(g) && contains(g, d+1) {
+					found = true
+				}
+			}
+		})
+		return found
+	}
+	var out ssa.Instruction
+	n := 0
+	allInstrs(fn, func(x ssa.Instruction) {
+		if c, ok := x.(*ssa.Call); ok {
+			if g := c.Call.StaticCallee(); g != nil && ro.w.inlinable(g) && contains(g, 1) {
+				out = x
+				n++
+			}
+		}
+	})
+	if n == 1 {
+		return out
+	}
+	return nil
+}
+
+// roleFuncs lists the resolved anchors.
+func (ro *Roles) roleFuncs() []*ssa.Function {
+	var out []*ssa.Function
+	seen := map[*ssa.Function]bool{}
+	for _, f := range append([]*ssa.Function{ro.Accept, ro.Start, ro.StartGo, ro.Admit, ro.Count, ro.RunPred, ro.PipeRunning, ro.DequeueDecision, ro.Completed, ro.CancelInt, ro.CancelAPI, ro.Expiry, ro.MarkCanceled, ro.Shutdown, ro.Save, ro.Load, ro.Replace, ro.Persist, ro.TaskChange, ro.StageChange, ro.GraphBuild}, ro.Dequeue...) {
+		if f != nil && !seen[f] {
+			seen[f] = true
+			out = append(out, f)
+		}
+	}
+	return out
+}
+
+// hostsOf returns the anchors into whose paths fn's body is spliced (fn itself when it is an
+// anchor), and whether some other module function calls fn too.
+func (ro *Roles) hostsOf(fn *ssa.Function) (hosts []*ssa.Function, otherCaller bool) {
+	roles := ro.roleFuncs()
+	for _, r := range roles {
+		if r == fn {
+			return []*ssa.Function{fn}, false
+		}
+	}
+	covered := map[*ssa.Function]bool{}
+	for _, r := range roles {
+		hs := ro.helpersOf(r)
+		for _, h := range hs {
+			if h == fn {
+				hosts = append(hosts, r)
+				covered[r] = true
+				for _, h2 := range hs {
+					covered[h2] = true
+				}
+			}
+		}
+	}
+	for _, f := range ro.w.ModFuncs {
+		if covered[f] || f == fn {
+			continue
+		}
+		allInstrs(f, func(in ssa.Instruction) {
+			if c := callCommonOf(in); c != nil && c.StaticCallee() == fn {
+				otherCaller = true
+			}
+			if mc, ok := in.(*ssa.MakeClosure); ok && mc.Fn == ssa.Value(fn) {
+				otherCaller = true
+			}
+		})
+	}
+	return hosts, otherCaller
+}
+
+// canceledSites enumerates every store of Canceled = true and checks the site kind. A site
+// in a helper is judged in the anchor(s) the helper is spliced into (EnumPaths inlining).
 func (ro *Roles) canceledSites(r *Report, rule string) {
 	w := ro.w
 	if !ro.need(r, rule, map[string]*ssa.Function{"completion handler": ro.Completed, "start function": ro.Start, "accept function": ro.Accept, "internal cancel": ro.CancelInt, "shutdown": ro.Shutdown, "load": ro.Load}) {
@@ -92,101 +208,148 @@ func (ro *Roles) canceledSites(r *Report, rule string) {
 			}
 		}
 	}
+	enumMemo := map[*ssa.Function]EnumResult{}
+	enum := func(f *ssa.Function) EnumResult {
+		if e, ok := enumMemo[f]; ok {
+			return e
+		}
+		e := w.EnumPaths(f, EnumOpts{Inline: true, MaxPaths: 20000})
+		enumMemo[f] = e
+		return e
+	}
+	// pathsWith: the paths of host on which the site executes, with the index of its effect
+	type hit struct {
+		p *Path
+		i int
+	}
+	pathsWith := func(host *ssa.Function, in ssa.Instruction) (hits []hit, truncated bool) {
+		res := enum(host)
+		for _, p := range res.Paths {
+			for i, e := range p.Effects {
+				if e.In == in {
+					hits = append(hits, hit{p, i})
+					break
+				}
+			}
+		}
+		return hits, res.Truncated
+	}
 	for _, s := range sites {
 		fname := FuncName(s.fn)
 		pos := w.InstrPos(s.in)
 		key := fname + ": job marked canceled"
-		switch s.fn {
-		case ro.Completed:
-			r.OK(rule, key+" (completion)", pos, "completion handler: the job was started, hence is not on the wait list")
-		case ro.Load:
-			r.OK(rule, key+" (load)", pos, "load normalisation in the constructor: no wait list exists yet")
-		case ro.Start:
-			// graph-error path: neither the Start store nor the go statement is reachable afterwards
-			var startStore ssa.Instruction
-			for _, st := range ro.storesTo(ro.Start, "PipelineJob.Start", nil) {
-				startStore = st
+		hosts, other := ro.hostsOf(s.fn)
+		if len(hosts) == 0 || other {
+			r.Undecided(rule, key+" (unknown site)", pos, "a job is marked canceled at a site of unknown kind: its effect on the wait list is not classified")
+			continue
+		}
+		for _, host := range hosts {
+			hkey := key
+			if host != s.fn {
+				hkey = fname + " (in " + FuncName(host) + "): job marked canceled"
 			}
-			res := PathQuery{Fn: s.fn, Start: []ssa.Instruction{s.in}, Target: func(x ssa.Instruction) bool {
-				_, isGo := x.(*ssa.Go)
-				return x == startStore || isGo
-			}}.Find()
-			r.Check(!res.Found, rule, key+" (failed start)", pos, "failed start: the job was already popped (or never pushed) and is not started afterwards", "after marking the job canceled the start function can still start it ("+res.String()+")")
-		case ro.Accept:
-			// replace: followed on every path by the overwrite of the same slot
-			st, _ := s.in.(*ssa.Store)
-			okR := false
-			if st != nil {
-				slot := strings.TrimSuffix(w.apAddr(st.Addr), ".Canceled")
-				res := PathQuery{Fn: s.fn, Start: []ssa.Instruction{s.in}, Target: isReturn,
-					BlockInstr: func(x ssa.Instruction) bool {
-						if st2, ok := x.(*ssa.Store); ok && w.apAddr(st2.Addr) == slot {
-							return true
-						}
-						return false
-					}}.Find()
-				okR = !res.Found && strings.Contains(slot, waitListField)
-			}
-			r.Check(okR, rule, key+" (replace)", pos, "replace: the canceled job's wait-list slot is overwritten on every path to the return", "a waiting job is marked canceled in the accept function but its wait-list slot is not overwritten on every path: a canceled job keeps a queue slot")
-		case ro.Shutdown:
-			// the list is deleted in the same lock region
-			res := PathQuery{Fn: s.fn, Start: []ssa.Instruction{s.in}, Target: func(x ssa.Instruction) bool {
-				c := callCommonOf(x)
-				return c != nil && strings.HasSuffix(calleeName(c), "RWMutex).Unlock")
-			}, BlockInstr: func(x ssa.Instruction) bool {
-				if c, ok := x.(*ssa.Call); ok {
-					if b, ok := c.Call.Value.(*ssa.Builtin); ok && b.Name() == "delete" && ro.isWaitListMap(c.Call.Args[0]) {
-						return true
-					}
+			switch host {
+			case ro.Completed:
+				r.OK(rule, hkey+" (completion)", pos, "completion handler: the job was started, hence is not on the wait list")
+			case ro.Load:
+				r.OK(rule, hkey+" (load)", pos, "load normalisation in the constructor: no wait list exists yet")
+			case ro.Start:
+				// graph-error path: neither the Start store nor the go statement is reachable afterwards
+				var startStore ssa.Instruction
+				for _, st := range ro.storesTo(ro.Start, "PipelineJob.Start", nil) {
+					startStore = st
 				}
-				return false
-			}}.Find()
-			r.Check(!res.Found, rule, key+" (shutdown)", pos, "shutdown: the pipeline's wait list is deleted before the lock is released", "shutdown marks waiting jobs canceled but can release the lock without deleting their wait list")
-		case ro.CancelInt:
-			// only for an unstarted job, and it must leave the wait list in the same region
-			res := w.EnumPaths(s.fn, EnumOpts{})
-			okUnstarted, okRemoved := true, true
-			detail := ""
-			for _, p := range res.Paths {
-				marks := false
-				removed := false
-				for _, e := range p.Effects {
-					if e.In == s.in {
-						marks = true
-					}
-					if marks && e.Kind == "call" && e.Callee != nil {
-						if _, ok := ro.removesFromWaitList(e.Callee, 0); ok {
-							removed = true
-						}
-					}
-					if marks && e.Kind == "mapupdate" && strings.Contains(e.Target, waitListField) {
-						if mu, ok := e.In.(*ssa.MapUpdate); ok && ro.formOf(mu.Value, w.AP(mu.Key), 0) == "delete-at-i" {
-							removed = true
-						}
-					}
-				}
-				if !marks {
+				from := ro.liftTo(host, s.in)
+				if from == nil {
+					r.Undecided(rule, hkey+" (failed start)", pos, "cannot locate the site in the start function")
 					continue
 				}
-				unstarted := false
-				for _, l := range p.Lits {
-					if strings.HasSuffix(l.Atom.L, ".Start") && l.Atom.R == "nil" && l.Atom.Op == "==" && l.Val {
-						unstarted = true
+				res := PathQuery{Fn: host, Start: []ssa.Instruction{from}, Target: func(x ssa.Instruction) bool {
+					_, isGo := x.(*ssa.Go)
+					return x == startStore || isGo
+				}}.Find()
+				r.Check(!res.Found, rule, hkey+" (failed start)", pos, "failed start: the job was already popped (or never pushed) and is not started afterwards", "after marking the job canceled the start function can still start it ("+res.String()+")")
+			case ro.Accept:
+				// replace: followed on every path by the overwrite of the same slot
+				hits, trunc := pathsWith(host, s.in)
+				okR := len(hits) > 0 && !trunc
+				for _, h := range hits {
+					e := h.p.Effects[h.i]
+					slot := strings.TrimSuffix(e.Target, ".Canceled")
+					if e.Kind != "store" || !strings.Contains(slot, waitListField) {
+						okR = false
+						continue
+					}
+					over := false
+					for _, e2 := range h.p.Effects[h.i+1:] {
+						if e2.Kind == "store" && e2.Target == slot {
+							over = true
+						}
+					}
+					if !over && h.p.End == "return" {
+						okR = false
 					}
 				}
-				if !unstarted {
-					okUnstarted = false
-					detail = p.LitString()
+				r.Check(okR, rule, hkey+" (replace)", pos, "replace: the canceled job's wait-list slot is overwritten on every path to the return", "a waiting job is marked canceled in the accept function but its wait-list slot is not overwritten on every path: a canceled job keeps a queue slot")
+			case ro.Shutdown:
+				// the list is deleted in the same lock region
+				hits, trunc := pathsWith(host, s.in)
+				okS := len(hits) > 0 && !trunc
+				for _, h := range hits {
+					deleted := false
+					for _, e2 := range h.p.Effects[h.i+1:] {
+						if e2.Kind == "delete" && strings.Contains(e2.Val, "."+waitListField) {
+							deleted = true
+						}
+						if e2.Kind == "call" && strings.HasSuffix(e2.Target, "RWMutex).Unlock") {
+							break
+						}
+					}
+					if !deleted {
+						okS = false
+					}
 				}
-				if !removed {
-					okRemoved = false
-					detail = p.LitString()
+				r.Check(okS, rule, hkey+" (shutdown)", pos, "shutdown: the pipeline's wait list is deleted before the lock is released", "shutdown marks waiting jobs canceled but can release the lock without deleting their wait list")
+			case ro.CancelInt:
+				// only for an unstarted job, and it must leave the wait list in the same region
+				hits, trunc := pathsWith(host, s.in)
+				okUnstarted, okRemoved := len(hits) > 0 && !trunc, len(hits) > 0 && !trunc
+				detail := ""
+				for _, h := range hits {
+					p := h.p
+					removed := false
+					for _, e := range p.Effects[h.i:] {
+						if e.Kind == "call" && e.Callee != nil {
+							if _, ok := ro.removesFromWaitList(e.Callee, 0); ok {
+								removed = true
+							}
+						}
+						if e.Kind == "mapupdate" && strings.Contains(e.Target, waitListField) {
+							if mu, ok := e.In.(*ssa.MapUpdate); ok && ro.formOf(mu.Value, w.AP(mu.Key), 0) == "delete-at-i" {
+								removed = true
+							}
+						}
+					}
+					unstarted := false
+					for _, l := range p.Lits {
+						if strings.HasSuffix(l.Atom.L, ".Start") && l.Atom.R == "nil" && l.Atom.Op == "==" && l.Val {
+							unstarted = true
+						}
+					}
+					if !unstarted {
+						okUnstarted = false
+						detail = p.LitString()
+					}
+					if !removed && p.End == "return" {
+						okRemoved = false
+						detail = p.LitString()
+					}
 				}
+				r.Check(okUnstarted, "canceled-site.cancel-unstarted-only", hkey+" (cancel request)", pos, "the cancel request marks a job canceled directly only on the `Start == nil` path (a started job is canceled through its scheduler and the completion handler)", "the cancel request marks a possibly started job canceled directly (path "+detail+"): its slot is freed while its tasks still run")
+				r.Check(okRemoved, rule, hkey+" (cancel of a waiting job)", pos, "cancel of a waiting job removes it from the wait list (order-preserving) in the same lock region", "the cancel request marks a waiting job canceled but leaves it on the wait list: the canceled job keeps a queue slot (queue_limit reports 'queue full' with an empty queue) and, at the head with a pending delay timer, blocks every later job")
+			default:
+				r.Undecided(rule, hkey+" (unknown site)", pos, "a job is marked canceled at a site of unknown kind: its effect on the wait list is not classified")
 			}
-			r.Check(okUnstarted, "canceled-site.cancel-unstarted-only", key+" (cancel request)", pos, "the cancel request marks a job canceled directly only on the `Start == nil` path (a started job is canceled through its scheduler and the completion handler)", "the cancel request marks a possibly started job canceled directly (path "+detail+"): its slot is freed while its tasks still run")
-			r.Check(okRemoved, rule, key+" (cancel of a waiting job)", pos, "cancel of a waiting job removes it from the wait list (order-preserving) in the same lock region", "the cancel request marks a waiting job canceled but leaves it on the wait list: the canceled job keeps a queue slot (queue_limit reports 'queue full' with an empty queue) and, at the head with a pending delay timer, blocks every later job")
-		default:
-			r.Undecided(rule, key+" (unknown site)", pos, "a job is marked canceled at a site of unknown kind: its effect on the wait list is not classified")
 		}
 	}
 	r.Count("canceled_sites", len(sites))
